@@ -85,6 +85,18 @@ log = logging.getLogger(__name__)
 log.addHandler(logging.NullHandler())
 
 _SUPPORTED_CODECS = (CODEC_GZIP, CODEC_NONE, CODEC_SNAPPY)
+
+
+def _group_payloads(payloads):
+    """
+    Group request payloads by topic and partition. A request carries one entry
+    per partition, so a second payload for the same topic and partition would
+    silently replace the first: refuse it.
+    """
+    grouped = group_by_topic_and_partition(payloads)
+    if sum(len(by_partition) for by_partition in grouped.values()) != len(payloads):
+        raise ValueError("more than one payload for the same topic and partition")
+    return grouped
 ATTRIBUTE_CODEC_MASK = 0x03
 MAX_BROKERS = 1024
 
@@ -554,7 +566,7 @@ class KafkaCodec(object):
         if not isinstance(client_id, bytes):
             raise TypeError("client_id={!r} should be bytes".format(client_id))
         payloads = [] if payloads is None else payloads
-        grouped_payloads = group_by_topic_and_partition(payloads)
+        grouped_payloads = _group_payloads(payloads)
 
         # override the api_version instead of passing it directly for now since we only support 2 versions
         if api_version >= 2:
@@ -660,7 +672,7 @@ class KafkaCodec(object):
         :param int api_version: Kafka API version to use
         """
         payloads = [] if payloads is None else payloads
-        grouped_payloads = group_by_topic_and_partition(payloads)
+        grouped_payloads = _group_payloads(payloads)
 
         # override the api_version instead of passing it directly for now since we only support 2 versions
         if api_version >= 2:
@@ -728,7 +740,7 @@ class KafkaCodec(object):
 
         """
         payloads = [] if payloads is None else payloads
-        grouped_payloads = group_by_topic_and_partition(payloads)
+        grouped_payloads = _group_payloads(payloads)
 
         message = cls._encode_message_header(client_id, correlation_id, KafkaCodec.OFFSET_KEY)
 
@@ -885,7 +897,7 @@ class KafkaCodec(object):
         :param list payloads: list of :class:`OffsetCommitRequest`
         """
         assert consumer_id is not None
-        grouped_payloads = group_by_topic_and_partition(payloads)
+        grouped_payloads = _group_payloads(payloads)
 
         message = cls._encode_message_header(
             client_id,
@@ -939,7 +951,7 @@ class KafkaCodec(object):
         :param bytes group: string, the consumer group you are fetching offsets for
         :param list payloads: list of :class:`OffsetFetchRequest`
         """
-        grouped_payloads = group_by_topic_and_partition(payloads)
+        grouped_payloads = _group_payloads(payloads)
         message = cls._encode_message_header(client_id, correlation_id, KafkaCodec.OFFSET_FETCH_KEY, api_version=1)
 
         message += write_short_ascii(group)
